@@ -30,6 +30,75 @@ def chunking_contract(M, qual, cs="chunk_size", free=None):
     return m
 
 
+def context_contracts(U, Q, W, C):
+    """FunctorMap.__init__ / __enter__ / __exit__: the two queues share one channel, every worker is started exactly once, exactly one stop
+    token per worker is sent and every worker is joined - only when nothing is in flight any more (owed@join)"""
+    Q.ghost["stops"] = INT
+    pm = Q.methods["put"]
+    pm.modifies("self.stops")
+    pm.ensures("self.stops == old(self.stops) + ite(is_none(item), 1, 0)", "stop-tokens-are-counted")
+    m = Q.method("__init__", {"maxsize": INT}, kind="init", trusted=True)
+    m.default_expr("maxsize", "0")
+    m.modifies("self.chan", "self.stops")
+    m.ensures("self.chan != None and fresh(self.chan) and self.chan.sent == 0 and self.chan.nrecv == 0 and forall(i, not self.chan.recv[i]) and self.stops == 0")
+    cpu = U.library("multiprocessing.cpu_count", {}, INT)
+    cpu.ensures("result >= 1")
+    W.ghost["pstarted"] = BOOL
+    W.ghost["pjoined"] = BOOL
+    W.fields["daemon"] = BOOL
+    m = W.method("__init__", {"pf": ANY, "work_queue": RefS("Queue"), "results_queue": RefS("Queue")}, kind="init", trusted=True)
+    m.ensures("self._work_queue == work_queue and self._results_queue == results_queue and not self.pstarted and not self.pjoined")
+    m = W.method("start", {}, trusted=True)
+    m.requires("not self.pstarted", "a-process-is-started-once")
+    m.modifies("self.pstarted")
+    m.ensures("self.pstarted")
+    m = W.method("join", {}, trusted=True)
+    m.requires("self.pstarted and self._work_queue != None and self._work_queue.chan != None")
+    m.requires("forall(i, 0, self._work_queue.chan.sent, self._work_queue.chan.recv[i])",
+               "owed@join:a-worker-can-end-only-after-its-results-were-taken-from-the-queue")
+    m.modifies("self.pjoined")
+    m.ensures("self.pjoined")
+    workers_ok = ("forall(k, 0, len(self.procs), self.procs[k] != None and self.procs[k]._work_queue == self._work_queue"
+                  " and self.procs[k]._results_queue == self._results_queue, trigger=self.procs[k])"
+                  " and forall(a, 0, len(self.procs), forall(b, a + 1, len(self.procs), self.procs[a] != self.procs[b]))")
+    m = C.method("__init__", {"pf": ANY, "workers": INT}, kind="init")
+    m.default_expr("workers", "0 - 1")
+    m.modifies("self._work_queue", "self._results_queue", "self.procs")
+    m.ghost_exit("self._results_queue.chan = self._work_queue.chan")
+    m.ensures("len(self.procs) >= 1 and implies(workers > 0, len(self.procs) == workers)", "one-worker-object-per-requested-worker")
+    m.ensures(workers_ok, "every-worker-uses-the-map's-two-queues;worker-objects-are-distinct")
+    m.ensures("forall(k, 0, len(self.procs), not self.procs[k].pstarted, trigger=self.procs[k])")
+    m.ensures("self._work_queue.chan.sent == 0 and forall(i, not self._work_queue.chan.recv[i]) and self._work_queue.stops == 0", "nothing-in-flight")
+    m = C.method("__enter__", {}, RefS("FunctorMap"), locals={"p": RefS("FunctorWorker")})
+    m.requires(workers_ok)
+    m.requires("forall(k, 0, len(self.procs), not self.procs[k].pstarted, trigger=self.procs[k])", "entered-once")
+    m.modifies("FunctorWorker.daemon[*]", "FunctorWorker.pstarted[*]")
+    lp = m.loop(1)
+    lp.invariant("same(self.procs, old(self.procs)) and same(self._work_queue, old(self._work_queue)) and same(self._results_queue, old(self._results_queue))")
+    lp.invariant(workers_ok)
+    lp.invariant("forall(k, 0, len(self.procs), self.procs[k].pstarted == (k < _i1), trigger=self.procs[k])")
+    m.ensures("result == self and forall(k, 0, len(self.procs), self.procs[k].pstarted, trigger=self.procs[k])", "every-worker-started-exactly-once")
+    m = C.method("__exit__", {"exc_type": ANY, "exc_val": ANY, "exc_tb": ANY}, locals={"p": RefS("FunctorWorker")})
+    m.requires(workers_ok)
+    m.requires("forall(k, 0, len(self.procs), self.procs[k].pstarted, trigger=self.procs[k])")
+    m.requires("forall(i, 0, self._work_queue.chan.sent, self._work_queue.chan.recv[i])", "call-idle:every-result-was-consumed")
+    m.modifies("self._work_queue.stops", "FunctorWorker.pjoined[*]")
+    keep = ("same(self.procs, old(self.procs)) and same(self._work_queue, old(self._work_queue)) and same(self._results_queue, old(self._results_queue))"
+            " and same(self._work_queue.chan, old(self._work_queue.chan)) and self._work_queue.chan.sent == old(self._work_queue.chan.sent)"
+            " and same(self._work_queue.chan.chunk, old(self._work_queue.chan.chunk))")
+    l1 = m.loop(1)
+    l1.invariant(keep)
+    l1.invariant("self._work_queue.stops == old(self._work_queue.stops) + _i1", "one-stop-token-per-iteration")
+    l2 = m.loop(2)
+    l2.invariant(keep)
+    l2.invariant(workers_ok)
+    l2.invariant("self._work_queue.stops == old(self._work_queue.stops) + len(self.procs)")
+    l2.invariant("forall(k, 0, len(self.procs), self.procs[k].pstarted, trigger=self.procs[k])")
+    l2.invariant("forall(k, 0, _i2, self.procs[k].pjoined, trigger=self.procs[k])")
+    m.ensures("self._work_queue.stops == old(self._work_queue.stops) + len(self.procs)", "exactly-one-stop-token-per-worker")
+    m.ensures("forall(k, 0, len(self.procs), self.procs[k].pjoined, trigger=self.procs[k])", "every-worker-joined(none-left-running)")
+
+
 def unit():
     U = Unit("C05/FunctorMap", "C05")
     E, CH, Q = poolenv.declare(U)
@@ -60,7 +129,8 @@ def unit():
     m.ghost_entry("%s.recv = lam(i, False)" % ch)
     CHS = "_seq1"                    # the chunk stream of chunking(data), enumerated: _seq1[j] == (j, chunk_j)
     common = [
-        ("same(self._work_queue, old(self._work_queue)) and same(self._results_queue, old(self._results_queue))", "queues-unchanged"),
+        ("same(self._work_queue, old(self._work_queue)) and same(self._results_queue, old(self._results_queue))"
+         " and self._work_queue.stops == old(self._work_queue.stops)", "queues-unchanged,no-stop-token-sent-by-a-call"),
         (binv, "reorder-buffer-invariant"),
         ("finished_cnt == buffer._waiting_for and data_cnt == %s.sent and 0 <= data_cnt" % ch, "counters"),
         ("forall(i, iff(i in buffer.fed, %s.recv[i])) and forall(i, implies(%s.recv[i], 0 <= i and i < %s.sent"
@@ -112,8 +182,12 @@ def unit():
     m.ensures("len(yielded) == len(data) and forall(p, 0, len(data), yielded[p] == F(data[p]), trigger=yielded[p])",
               "yields-exactly-f(x)-for-every-x-once-in-input-order")
     m.ensures("forall(i, 0, %s.sent, %s.recv[i])" % (ch, ch), "call-idle-again:nothing-left-in-flight(repeated-calls-independent)")
+    context_contracts(U, Q, W, C)
     U.verify(None, "FunctorMap.__call__.<chunking>")
     U.verify("FunctorMap", "__call__")
+    U.verify("FunctorMap", "__init__")
+    U.verify("FunctorMap", "__enter__")
+    U.verify("FunctorMap", "__exit__")
     U.assume("demonic queue environment (poolenv): any arrival order / timing / number of workers / queue bounds; queues deliver every item "
              "exactly once; the worker loop body (verified separately) turns (i, c) into exactly one (i, [f(x) for x in c])")
     U.assume("f is pure and total (returns normally); the input iterable is a finite sequence evaluated lazily by chunking only")
